@@ -124,6 +124,37 @@ engine_a("C32",
     quick=tier(3000, 35),
 )
 
+HS_REAL = ["handshake.Machine (NewMachine/Initiate/ProcessPacket), handshake payload codec, flynn/noise IX, cert.CAPool.VerifyCertificate, cert.Recombine — all real"]
+HS_STUB = ["network between the machines (attacker-controlled message pool)", "HandshakeManager/hostmap (not involved; engine A covers them)", "wall clock (synctest bubble)", "crypto/rand (cryptotest seeded)"]
+HS_NOTE = "Trusted: the S-hs harness (identity generation, ground-truth trust table by identity kind, message pool) and the oracles. Machines are exercised exactly as HandshakeManager does (fresh responder machine per first message, one initiator machine per session)."
+HS_RULE = "one run = a world of 3-9 identities (2-3 honest, optionally untrusted-CA, expired, expiring, not-yet-valid, blocklisted, P-256 twin-blocklisted, key thief; v1/v2/both; Curve25519 or P-256; ChaChaPoly or AES-GCM) with 2-6 sessions and 40-120 (thorough: up to 500) attacker-scheduled deliveries of genuine, replayed, cross-session, truncated, bit-flipped, spliced, ephemeral-substituted and certificate-rewritten messages plus clock advances; distinct = distinct abstract trace hash; non-trivial = a session completed after rejected variants, or certificate-rewriting mutations were delivered in a run with a completion"
+
+def hs_check(pid, **kw):
+    kw.setdefault("pkg", "handshake")
+    kw.setdefault("engine", "C-component")
+    kw.setdefault("scenarios", [pid + ".hs"])
+    kw.setdefault("real", HS_REAL)
+    kw.setdefault("stub", HS_STUB)
+    kw.setdefault("level_note", HS_NOTE)
+    kw.setdefault("rule", HS_RULE)
+    kw.setdefault("quick", tier(6000, 30))
+    kw.setdefault("thorough", tier(400000, 900, shrink_s=90))
+    kw.setdefault("assumptions", ["machines are used sequentially (documented as not concurrency safe)"])
+    check(pid, **kw)
+
+hs_check("C05",
+    technique="deterministic simulation of concurrent IX sessions between real handshake.Machines with an attacker owning the network (drop/dup/reorder/truncate/flip/splice/replay, forged identities); every completion checked against simulator ground truth",
+    level_text="Seeded search over attacker-scheduled message histories: every Result a machine returns must report exactly the certificate its trust check accepted, whose key equals the Noise peer static, owned by an identity the reference trust table accepts at that time; an initiator may complete only on the unmodified reply of a responder that processed its unmodified first message (possession proof) and must report that responder's certificate; no machine completes twice. Responder-side completion on a replayed/forged first message carrying a valid certificate is allowed (IX semantics). Evidence, not proof.")
+hs_check("C06",
+    technique="deterministic simulation of interleaved IX sessions (all curve/cipher/version mixes, tape-chosen index allocators incl. equal and extreme values); agreement of keys, indexes and message count checked for every session completed at both ends",
+    level_text="Seeded search over session interleavings: when both ends of one session complete, each side's sending key must decrypt only with the other side's receiving key (not with its own, not with any machine of another session), remote index = peer's local index in both directions, equal message count, non-zero local indexes. Evidence, not proof.")
+hs_check("C07",
+    technique="deterministic simulation: before the genuine reply an initiator machine receives 0..n attacker variants (every truncation class, bit flips, low-order/invalid/foreign ephemerals, cross-session bodies, wrong subtype, garbage); if it still reports itself usable the genuine reply must complete it",
+    level_text="Seeded search over rejected-then-genuine histories: whenever the genuine reply of an acceptable responder is refused by a machine that never reported Failed(), that is a wedge; once Failed() is true every later input must return ErrMachineFailed and no result. Evidence, not proof.")
+hs_check("C02",
+    technique="deterministic simulation with an on-path attacker rewriting the certificate bytes that travel in the clear in the first handshake message (structure-aware and blind mutations, P-256 low/high-S twin, foreign certificate, version field), with blocklists naming either twin fingerprint",
+    level_text="Seeded search over tampered first messages: a responder that completes must have accepted a certificate whose decoded identity (name, networks, unsafe networks, groups, CA flag, validity, issuer, curve, public key) equals the issued one; the only other signature accepted for unchanged content is the P-256 twin; identities blocklisted directly or through their twin fingerprint never complete in either signature form. The PEM encoding does not cross the simulated network and is outside this check. Evidence, not proof.")
+
 NOT_APPLICABLE = {
     "C03": "pure encode/decode round trip over input bytes; no clock, schedule, fault or second party for a simulator to control",
     "C04": "pure function of (certificate to sign, signer); offline CLI; nothing to schedule or fault",
